@@ -7,7 +7,7 @@ ID = "C01"
 LEVEL = "exploration"
 RUNS = {"quick": 12000, "thorough": 200000}
 RULE = (
-    "each run: seeded swarm configuration (key pool with prefix-related, nibble-unaligned and 20/32-byte keys, "
+    "each run: seeded swarm configuration (key pool: prefix-related, nibble-unaligned, 20/32-byte, 57-200-byte, >256-nibble variable-length, or mirrored keys with identical sub-tries; "
     "value menu, prune on/off, lru-cache knob, op weights) and a history of 10-80 mutation events by a writer actor "
     "(method and dict syntax, direct and inside squash_changes blocks held open over several steps, committed or "
     "aborted), a reader actor issuing 0-4 lookups (get/exists/in/[]) after each event on stored keys, proper "
